@@ -2,12 +2,12 @@
    listings, refused transfers, in any order and any number, in the passive modes without TLS, against a peer whose
    script answers each command as RFC 959 prescribes: the k-th call returns exactly the replies generated for its own
    commands and the session is in step after every call. *)
-From LibFtp Require Import Bytes Decimal Reply Endpoint Ascii DataConn DataConn_Proofs Client Client_Proofs Login_Proofs Transfer_Proofs Transfer_More Modes_Proofs.
+From LibFtp Require Import Bytes Decimal Reply Endpoint Ascii DataConn DataConn_Proofs Client Client_Proofs Login_Proofs Transfer_Proofs Transfer_More Modes_Proofs Ctl_Proofs.
 Local Open Scope N_scope.
 
 (* the part of the state the calls depend on and must re-establish *)
 Definition Inv (w : world) (rs : list reaction) : Prop :=
-  insync w rs /\ w_data w = None /\ c_mode (w_cfg w) = Passive /\ c_tls (w_cfg w) = false.
+  insync w rs /\ w_data w = None /\ c_mode (w_cfg w) = Passive /\ c_tls (w_cfg w) = false /\ w_ssl w = false.
 
 (* one served call: the call, the reactions of the peer it consumes, what it returns.
    [rfc] is the RFC 2428 flag of the session (EPSV vs PASV) *)
@@ -90,17 +90,19 @@ Definition next_type (t : ttype) (c : api) (xs : list reply) : ttype :=
   end.
 
 Lemma inv_after w c rest :
-  w_data w = None -> c_mode (w_cfg w) = Passive -> c_tls (w_cfg w) = false ->
-  match c with ASetMode _ | ASetRfc2428 _ => False | _ => True end ->
+  w_data w = None -> c_mode (w_cfg w) = Passive -> c_tls (w_cfg w) = false -> w_ssl w = false ->
+  match c with AConnect _ _ _ | ALogout | ADisconnect _ | ASetMode _ | ASetRfc2428 _ => False | _ => True end ->
   insync (snd (step w c)) rest ->
-  Inv (snd (step w c)) rest /\ c_rfc2428 (w_cfg (snd (step w c))) = c_rfc2428 (w_cfg w).
+  Inv (snd (step w c)) rest /\ c_rfc2428 (w_cfg (snd (step w c))) = c_rfc2428 (w_cfg w) /\
+  w_script (snd (step w c)) = w_script w.
 Proof.
-  intros Hd Hm Ht Hc Hi.
+  intros Hd Hm Ht Hs Hc Hi.
   pose proof (step_releases_data c w Hd) as D.
   pose proof (step_keeps_tls_config c w) as (K1 & _).
   pose proof (step_keeps_modes c w) as M.
-  destruct c; try contradiction; destruct M as (M1 & M2);
-    (split; [split; [exact Hi|split; [exact D|split; [rewrite M1; exact Hm|rewrite K1; exact Ht]]]|exact M2]).
+  pose proof (step_keeps_ctl c w) as K.
+  destruct c; try contradiction; destruct M as (M1 & M2); destruct K as (Ks & Kl);
+    (split; [split; [exact Hi|split; [exact D|split; [rewrite M1; exact Hm|split; [rewrite K1; exact Ht|exact (Kl Hs)]]]]|split; [exact M2|exact Ks]]).
 Qed.
 
 (* one served call from a session in step: the replies handed back are as prescribed and the invariant is re-established *)
@@ -108,17 +110,19 @@ Theorem served_step w c rs rest xs :
   Inv w (rs ++ rest) -> serves (c_rfc2428 (w_cfg w)) (c_type (w_cfg w)) c rs xs ->
   outcome_replies (fst (step w c)) = Some xs /\ Inv (snd (step w c)) rest /\
   c_rfc2428 (w_cfg (snd (step w c))) = c_rfc2428 (w_cfg w) /\
-  c_type (w_cfg (snd (step w c))) = next_type (c_type (w_cfg w)) c xs.
+  c_type (w_cfg (snd (step w c))) = next_type (c_type (w_cfg w)) c xs /\
+  w_script (snd (step w c)) = w_script w.
 Proof.
-  intros (Hi & Hd & Hm & Ht) S.
+  intros (Hi & Hd & Hm & Ht & Hssl) S.
   assert (Fin : forall o w', step w c = (o, w') -> outcome_replies o = Some xs -> insync w' rest ->
-                match c with ASetMode _ | ASetRfc2428 _ => False | _ => True end ->
+                match c with AConnect _ _ _ | ALogout | ADisconnect _ | ASetMode _ | ASetRfc2428 _ => False | _ => True end ->
                 c_type (w_cfg w') = next_type (c_type (w_cfg w)) c xs ->
                 outcome_replies (fst (step w c)) = Some xs /\ Inv (snd (step w c)) rest /\
                 c_rfc2428 (w_cfg (snd (step w c))) = c_rfc2428 (w_cfg w) /\
-                c_type (w_cfg (snd (step w c))) = next_type (c_type (w_cfg w)) c xs).
-  { intros o w' E Ho Is Hc Hty. pose proof (inv_after w c rest Hd Hm Ht Hc) as IA. rewrite E in *. cbn [fst snd] in *.
-    destruct (IA Is) as (I1 & I2). auto. }
+                c_type (w_cfg (snd (step w c))) = next_type (c_type (w_cfg w)) c xs /\
+                w_script (snd (step w c)) = w_script w).
+  { intros o w' E Ho Is Hc Hty. pose proof (inv_after w c rest Hd Hm Ht Hssl Hc) as IA. rewrite E in *. cbn [fst snd] in *.
+    destruct (IA Is) as (I1 & I2 & I3). auto. }
   pose proof Hi as (Hr & Hp & Hc).
   inversion S; subst; cbn [app] in *.
   - destruct (simple_call w verb arg r rest x Hr Hp Hc H0 H) as (w' & E & A & B & C & Cf & _).
@@ -165,23 +169,25 @@ Inductive history (rfc : bool) : ttype -> list api -> list reaction -> list (lis
 
 Lemma lockstep_mixed_aux rfc t cs rss xss : history rfc t cs rss xss ->
   forall w rest, c_rfc2428 (w_cfg w) = rfc -> c_type (w_cfg w) = t -> Inv w (rss ++ rest) ->
-  map outcome_replies (fst (steps w cs)) = map Some xss /\ Inv (snd (steps w cs)) rest.
+  map outcome_replies (fst (steps w cs)) = map Some xss /\ Inv (snd (steps w cs)) rest /\
+  w_script (snd (steps w cs)) = w_script w.
 Proof.
   induction 1 as [t|t c rs xs cs rss xss S Hh IH]; intros w rest Hrfc Hty Hi.
-  - cbn. split; [reflexivity|exact Hi].
+  - cbn. split; [reflexivity|]. split; [exact Hi|reflexivity].
   - rewrite <- app_assoc in Hi. subst rfc t.
-    destruct (served_step w c rs (rss ++ rest) xs Hi S) as (E1 & I1 & R1 & T1).
-    cbn [steps]. destruct (step w c) as [o1 w1] eqn:St. cbn [fst snd] in E1, I1, R1, T1.
-    destruct (IH w1 rest R1 T1 I1) as (E2 & I2).
-    destruct (steps w1 cs) as [os2 w2]. cbn [fst snd] in E2, I2.
-    destruct o1; try discriminate; cbn [fst snd map]; rewrite E1, E2; auto.
+    destruct (served_step w c rs (rss ++ rest) xs Hi S) as (E1 & I1 & R1 & T1 & Sc1).
+    cbn [steps]. destruct (step w c) as [o1 w1] eqn:St. cbn [fst snd] in E1, I1, R1, T1, Sc1.
+    destruct (IH w1 rest R1 T1 I1) as (E2 & I2 & Sc2).
+    destruct (steps w1 cs) as [os2 w2]. cbn [fst snd] in E2, I2, Sc2.
+    destruct o1; try discriminate; cbn [fst snd map]; rewrite E1, E2; (split; [reflexivity|]; split; [exact I2|congruence]).
 Qed.
 
 (* C02: every call of every such history returns exactly the replies generated for its own commands, and the session
    is in step at the end (hence after every prefix: a prefix of a history is a history) *)
 Theorem lockstep_mixed_histories : forall cs rss xss w rest,
   Inv w (rss ++ rest) -> history (c_rfc2428 (w_cfg w)) (c_type (w_cfg w)) cs rss xss ->
-  map outcome_replies (fst (steps w cs)) = map Some xss /\ Inv (snd (steps w cs)) rest.
+  map outcome_replies (fst (steps w cs)) = map Some xss /\ Inv (snd (steps w cs)) rest /\
+  w_script (snd (steps w cs)) = w_script w.
 Proof. intros cs rss xss w rest Hi Hh. exact (lockstep_mixed_aux _ _ cs rss xss Hh w rest eq_refl eq_refl Hi). Qed.
 
 
